@@ -171,13 +171,20 @@ func VerifC07RaceDriver() {
 	done := make(chan struct{})
 	for g := 0; g < 4; g++ {
 		go func(g int) {
-			for i := 0; i < 300; i++ {
+			for i := 0; i < 2000; i++ {
+				// a steady stream of insertions into and removals from the table (every other exchange
+				// gets no kernel transmit stamp and is dropped again), shared and private client ids
 				id := fmt.Sprintf("c%d", (g+i)%6)
+				if i%2 == 1 {
+					id = fmt.Sprintf("g%d-%d", g, i%64)
+				}
 				var req, resp ntp.Packet
 				rxt := time.Unix(int64(1000+i), int64(g))
 				var txt time.Time
 				handleRequest(id, &req, &rxt, &txt, &resp)
-				txt = txt.Add(time.Duration(g+1) * time.Microsecond)
+				if i%4 != 1 {
+					txt = txt.Add(time.Duration(g+1) * time.Microsecond)
+				}
 				updateTXTimestamp(id, rxt, &txt)
 			}
 			done <- struct{}{}
